@@ -294,6 +294,21 @@ def c18_graph():
             (I("d"), M.EX + "p", I("a"))]
 
 
+def c18_graph_odd():
+    """as c18_graph, with instances in a namespace that holds a non-ASCII character and a percent-escape (what detect_minimal_iri
+    prints as stem), a property with a percent-escape, an empty literal and a literal with U+2028"""
+    ns = M.EX + "a\u00f1o%20x/"
+    def I(x):
+        return M.iri(ns + x)
+    T = M.RDF_TYPE
+    C, D = M.iri(M.EX + "C"), M.iri(M.EX + "D")
+    return [(I("a"), T, C), (I("b"), T, C), (I("c"), T, C), (I("d"), T, D),
+            (I("a"), M.EX + "p", I("d")), (I("b"), M.EX + "p", I("d")), (I("a"), M.EX + "caf%C3%A9", M.lit("")),
+            (I("a"), M.EX + "r", M.lit("1", M.XSD_INTEGER)), (I("b"), M.EX + "r", M.lit("2", M.XSD_INTEGER)),
+            (I("c"), M.EX + "r", M.lit("3", M.XSD_INTEGER)), (I("c"), M.EX + "caf%C3%A9", M.lit("y\u2028z", lang="en")),
+            (I("d"), M.EX + "p", I("a"))]
+
+
 def big_graph(n_classes=2300):
     T = []
     for i in range(n_classes):
@@ -436,13 +451,18 @@ def sequences(tier, rnd):
                 out.append({"id": "s%d" % i, "gid": "small", "nt": nt, "seq": [(w, ALPHABET[j]) for w, j in sq], "shared": True,
                             "turtle": turtle, "shapes_in_dict": shapes_in_dict})
                 i += 1
-    # detect_minimal_iri: repeated calls with other thresholds / formats
-    for sq in [(0, 1), (1, 0), (2, 0), (0, 6), (6, 0, 2)]:
-        out.append({"id": "s%d" % i, "gid": "small", "nt": nt, "seq": [("A", ALPHABET[j]) for j in sq], "shared": False, "miniri": True})
-        i += 1
-    # examples mode: repeated calls
-    for sq in [(0, 0), (0, 6), (6, 0), (0, 1), (0, 0, 0)]:
-        out.append({"id": "s%d" % i, "gid": "small", "nt": nt, "seq": [("A", ALPHABET[j]) for j in sq], "shared": False, "examples": True})
+    # detect_minimal_iri / examples mode: repeated calls with other thresholds / formats, on the plain graph and on the graph whose
+    # IRIs and literals hold percent-escapes, non-ASCII characters, an empty string
+    ont = M.to_nt(c18_graph_odd())
+    for gid, text in (("small", nt), ("odd", ont)):
+        for sq in [(0, 1), (1, 0), (2, 0), (0, 6), (6, 0, 2), (0, 1, 2, 0), (1, 7, 2)]:
+            out.append({"id": "s%d" % i, "gid": gid, "nt": text, "seq": [("A", ALPHABET[j]) for j in sq], "shared": False, "miniri": True})
+            i += 1
+        for sq in [(0, 0), (0, 6), (6, 0), (0, 1), (0, 0, 0)]:
+            out.append({"id": "s%d" % i, "gid": gid, "nt": text, "seq": [("A", ALPHABET[j]) for j in sq], "shared": False, "examples": True})
+            i += 1
+    for sq in rnd.sample(list(itertools.product(range(len(ALPHABET)), repeat=2)), 40):
+        out.append({"id": "s%d" % i, "gid": "odd", "nt": ont, "seq": [("A", ALPHABET[j]) for j in sq], "shared": False})
         i += 1
     # > 10 000 lines: the serializer flushes its buffer every 5 000 lines
     bnt = M.to_nt(big_graph(2300 if tier == "quick" else 5200))
@@ -499,7 +519,7 @@ def check_c18(out, tier):
 def replay_c18(d):
     out = common.Outcome("C18", "quick")
     s = dict(d["case"]["seq"])
-    s["nt"] = M.to_nt(c18_graph() if s["gid"] == "small" else big_graph())
+    s["nt"] = M.to_nt({"small": c18_graph, "odd": c18_graph_odd}.get(s["gid"], big_graph)())
     s["seq"] = [tuple(x) for x in s["seq"]]
     r_ = _run_sequence(s)
     t = {"id": s["id"], "events": [{"kind": e["kind"], "fmt": e["fmt"], "sink": e["sink"], "thr": e["thr"], "shaper": e["shaper"],
